@@ -16,6 +16,7 @@ R09.7 a node is never re-found by its own name: inside the tree classes no looku
 R09.8 a loop that climbs towards the root (`n = n.parent`) while its test adds n.length is bounded by the ancestor it must not pass (`n.parent is not ...
 R09.9 the clade sets behind the tree distances are computed from the tree as it is NOW: TreeNode.subsets() writes its per-node scratch attribute ...
 R09.10 the tokeniser un-munges `_` only where an UNQUOTED label is completed (the writer quotes names to protect their underscores).
+R09.11 to_rich_dict keys edge attributes by node name only on a (copied) tree whose unnamed nodes were named.
 """
 
 from __future__ import annotations
